@@ -27,6 +27,8 @@ type ClockScenario struct {
 	MediaMs   int    `json:"media_every_ms"`     // RTCP receiver reports (play) / RTP packets (record); 0 = never
 	KeepMs    int    `json:"keepalive_every_ms"` // RTSP keep-alive requests; 0 = never
 	SilentMs  int    `json:"silent_from_ms"`     // the peer stops transmitting at this time; 0 = never
+	PauseMs   int    `json:"pause_at_ms"`        // PAUSE at this time (0 = never) …
+	ResumeMs  int    `json:"resume_at_ms"`       // … and PLAY / RECORD again at this time
 	UntilMs   int    `json:"until_ms"`
 	StepMs    int    `json:"step_ms"`
 	Multicast bool   `json:"-"`
@@ -71,6 +73,35 @@ func clockScenarios() []ClockScenario {
 		mk("record-udp-packets-every-1.5s", func(s *ClockScenario) { s.Record = true; s.MediaMs = 1500; s.UntilMs = 12000 }),
 		mk("record-udp-silent", func(s *ClockScenario) { s.Record = true; s.SilentMs = 1; s.UntilMs = 5000 }),
 		mk("record-udp-keepalives-only", func(s *ClockScenario) { s.Record = true; s.KeepMs = 1000; s.UntilMs = 5000 }),
+		// resumed after a pause longer than the timeout: the packet clock starts again at the resume
+		mk("record-udp-pause-7s-then-resume-first-packet-1.5s-later", func(s *ClockScenario) {
+			s.Record = true
+			s.MediaMs = 1500
+			s.PauseMs = 3500
+			s.ResumeMs = 10500
+			s.UntilMs = 20000
+		}),
+		mk("play-udp-pause-9s-then-resume-reports-every-3s", func(s *ClockScenario) {
+			s.MediaMs = 3000
+			s.PauseMs = 4000
+			s.ResumeMs = 13000
+			s.UntilMs = 30000
+		}),
+		mk("record-udp-pause-7s-then-resume-and-silent", func(s *ClockScenario) {
+			s.Record = true
+			s.MediaMs = 1000
+			s.PauseMs = 3500
+			s.ResumeMs = 10500
+			s.SilentMs = 10501
+			s.UntilMs = 16000
+		}),
+		mk("play-udp-pause-9s-then-resume-and-silent", func(s *ClockScenario) {
+			s.MediaMs = 3000
+			s.PauseMs = 4000
+			s.ResumeMs = 13000
+			s.SilentMs = 13001
+			s.UntilMs = 24000
+		}),
 		mk("record-udp-idle-2s-read-6s-packets-every-4s", func(s *ClockScenario) {
 			s.Record = true
 			s.IdleMs = 2000
@@ -229,13 +260,45 @@ func runClockScenario(sc ClockScenario) (res caseResult) {
 		return false
 	}
 	lastTx := 0 // fake time of the peer's last transmission on a path that counts
+	mediaOrigin := 0
+	paused := false
 	T := sc.timeoutMs()
 	live := sc.live()
 	for t := sc.StepMs; t <= sc.UntilMs; t += sc.StepMs {
 		clock.Store(int64(t))
 		silent := sc.SilentMs != 0 && t >= sc.SilentMs
+		if sc.PauseMs != 0 && t == sc.PauseMs && !closed() {
+			pr, err := request(base.Pause, url, base.Header{"Session": base.HeaderValue{sx.Session}}, nil)
+			if err != nil || pr.StatusCode != 200 {
+				res.err = fmt.Errorf("clock scenario: PAUSE: %v %v", err, pr)
+				return res
+			}
+			timeline = append(timeline, clockEvent{t, "PAUSE"})
+			paused = true
+		}
+		if paused && t == sc.ResumeMs && !closed() {
+			rr, err := request(start, url, base.Header{"Session": base.HeaderValue{sx.Session}}, nil)
+			if err != nil || rr.StatusCode != 200 {
+				res.err = fmt.Errorf("clock scenario: %s after the pause: %v %v", start, err, rr)
+				return res
+			}
+			timeline = append(timeline, clockEvent{t, string(start) + " again"})
+			paused = false
+			lastTx, mediaOrigin = t, t // the resume starts the timeout anew
+		}
+		if paused {
+			// a paused session has no stream timeout; it must simply still be there at the resume
+			time.Sleep(2 * time.Millisecond)
+			if closed() {
+				timeline = append(timeline, clockEvent{t, "OnSessionClose: " + rec.closeErr})
+				violate("sess-live-expired", "a session whose peer keeps following the protocol is never expired",
+					"paused session closed at %d ms of the injected clock (%s)", t, rec.closeErr)
+				return res
+			}
+			continue
+		}
 		if !silent && !closed() {
-			if sc.MediaMs != 0 && t%sc.MediaMs == 0 {
+			if sc.MediaMs != 0 && t > mediaOrigin && (t-mediaOrigin)%sc.MediaMs == 0 {
 				if !sendMedia() {
 					res.err = fmt.Errorf("clock scenario: the server did not count a packet sent at %d ms", t)
 					return res
